@@ -29,7 +29,7 @@ impl Backend for OneObject {
         NetPlan {
             up_ms: 3,
             down_ms: 5,
-            body: BodyPlan { cut_at: self.cut_at, frame: self.frame, frame_delay_ms: 2 },
+            body: BodyPlan { cut_at: self.cut_at, frame: self.frame, frame_delay_ms: 2, empty_frame_every: if self.frame == 7 { 2 } else { 0 } },
         }
     }
     fn serve(&mut self, core: &mut Core, req: &Request) -> Reply {
@@ -48,7 +48,8 @@ impl Backend for OneObject {
 }
 
 fn fmt_len<T: std::fmt::Debug>(v: &T) -> usize {
-    format!("{:?}", v).len()
+    // both the compact and the pretty form (`{:#?}` is what `dbg!` prints)
+    format!("{:?}", v).len() + format!("{:#?}", v).len()
 }
 
 fn exercise_record(ctx: &mut Ctx, r: &Record<'_>, depth: u32) {
@@ -199,7 +200,7 @@ fn boundary_string(len: usize, alphabet: u64, variant: u64) -> Vec<u8> {
                 b"AR2V00\xe2\x82\xac",
                 b"AR2\xf0\x9f\x8c\xa9\xc3\xa9",
                 b"AR2V\xc3\xa9\xc3\xa9\xc3",
-                b"AR2V0006\xc3",
+                b"ARCHIVE2.",
             ];
             let pat = names[variant as usize % 6];
             for (i, b) in v.iter_mut().enumerate() {
